@@ -123,6 +123,17 @@ def run(ctx):
         for w in warns:
             ctx.check(p.events.index(w) < p.events.index(fw[0]) if fw else False, 'C15.3', 'thread-mismatch:warn-then-forward', f_pm.loc(w.node), 'a thread mismatch only warns')
     ctx.floor('C15.3', nfw, 3, 'normal paths of process_message')
+    # .. and building the warning cannot itself fail: a `%` format whose format string contains dynamic text (the message as printed, which may
+    # hold a `%`) raises TypeError / ValueError out of the breakpoint before the message is forwarded
+    from .common import scope_nodes as _sn15
+    for g_, n_ in _sn15(repo, f_pm):
+        if isinstance(n_, ast.BinOp) and isinstance(n_.op, ast.Mod):
+            left = n_.left
+            dyn = [x for x in ast.walk(left) if isinstance(x, (ast.Call, ast.Name, ast.Attribute, ast.Subscript, ast.JoinedStr))]
+            strish = isinstance(left, (ast.BinOp, ast.JoinedStr)) or (isinstance(left, ast.Constant) and isinstance(left.value, str))
+            if strish and dyn and any(isinstance(x, ast.Constant) and isinstance(x.value, str) for x in ast.walk(left)):
+                ctx.violation('C15.3', 'thread-mismatch:warning-cannot-raise', g_.loc(n_), 'the %%-format string `%s` contains dynamic text: a `%%` in it makes the formatting raise out of the '
+                              'breakpoint (the message is then never forwarded)' % norm(left)[:80])
     # ---- C15.4 -----------------------------------------------------------------------------------------------
     safe = set()
     for f, dicts, inl in ((f_close, {'self.connections'}, ()), (repo.func('ConnectionManager.close_connection'), {'self.open_connections'}, ())):
